@@ -148,7 +148,8 @@ def run_scenario(job, sc, node_dir):
                 with open(p + ext, "wb") as f:
                     f.write(b"stale index\n")
 
-    if cfg.get("repeat") == "dirty" and argv and argv[0] in ("find_snv_candidates", "learn"):
+    sub = next((a for a in argv if not a.startswith("-")), "")
+    if cfg.get("repeat") == "dirty" and sub in ("find_snv_candidates", "learn"):
         # these two build the FASTA index themselves (pyfaidx): an index left by an earlier run on an older version of
         # the reference (older than the FASTA, different line layout) must be rebuilt, not trusted
         for a in argv[1:]:
@@ -223,16 +224,31 @@ def run_scenario(job, sc, node_dir):
                 status["exc"] = type(e).__name__
                 status["trace"] = traceback.format_exc()[-1500:]
         finally:
+            # standard output and error stay redirected until this process ends: what the command has not flushed
+            # or closed yet is written at interpreter shutdown, as in a real run
             sys.stdout.flush()
             sys.stderr.flush()
-            os.dup2(old1, 1)
-            os.dup2(old2, 2)
             for fd in (so, se, old1, old2):
                 os.close(fd)
             sys.argv = old_argv
         result["runs"].append(status)
         pool_stats = dict(seams.POOL_STATS)
     result["status"] = result["runs"][-1]
+    ps = pool_stats or {}
+    result["pool"] = {k: ps.get(k, 0) for k in ("pools", "tasks", "reorder-dispatch", "reorder-delivery", "skewed-load", "stalled-worker", "chunking")}
+    result["pool_orders"] = [[list(a), list(b)] for a, b in ps.get("orders", [])][:8]
+    result["clock"] = {"fired": clock.fired, "covered": clock.covered, "reads": clock.reads}
+    result["outputs"] = outputs
+    with open(os.path.join(workdir, "status.json"), "w") as f:
+        json.dump(result, f)
+
+
+def collect_outputs(sc, node_dir):
+    """in the node process, after the scenario's process has exited (and flushed and closed everything, as a real run does)"""
+    workdir = os.path.join(node_dir, "s%03d" % sc["idx"])
+    with open(os.path.join(workdir, "status.json")) as f:
+        result = json.load(f)
+    outputs = result.pop("outputs")
     outs = {}
     if sc.get("stdout"):
         outs["<stdout>"] = normalise(os.path.join(workdir, "stdout.bin"), {"vcf": "vcf", "bam": "bam"}.get(sc["stdout"], "text"), node_dir)
@@ -243,10 +259,6 @@ def run_scenario(job, sc, node_dir):
         if v is not None:
             with open(os.path.join(workdir, "norm_" + k.replace("<", "").replace(">", "")), "w", encoding="latin-1", errors="replace") as f:
                 f.write(v)
-    ps = pool_stats or {}
-    result["pool"] = {k: ps.get(k, 0) for k in ("pools", "tasks", "reorder-dispatch", "reorder-delivery", "skewed-load", "stalled-worker", "chunking")}
-    result["pool_orders"] = [[list(a), list(b)] for a, b in ps.get("orders", [])][:8]
-    result["clock"] = {"fired": clock.fired, "covered": clock.covered, "reads": clock.reads}
     with open(os.path.join(workdir, "result.json"), "w") as f:
         json.dump(result, f)
 
@@ -288,11 +300,17 @@ def main():
                 run_scenario(job, sc, node_dir)
             except BaseException:
                 traceback.print_exc()
-                code = 3
-            finally:
-                os._exit(code)
+                os._exit(3)
+            # leave like a real run does: normal interpreter shutdown (flushes and closes what the command left open)
+            faulthandler.cancel_dump_traceback_later()
+            sys.exit(0)
         _, st = os.waitpid(pid, 0)
         rp = os.path.join(node_dir, "s%03d" % sc["idx"], "result.json")
+        if os.path.exists(os.path.join(node_dir, "s%03d" % sc["idx"], "status.json")) and not first_pass:
+            try:
+                collect_outputs(sc, node_dir)
+            except Exception:
+                traceback.print_exc()
         if first_pass:
             try:
                 os.unlink(rp)
